@@ -28,6 +28,10 @@ class BoomBase(BaseException):
 BOOMS = (Boom, BoomBase)
 
 
+class XBoom(Exception):
+    """Raised by the fragile `exception` handler (spec flag xfrag) while it reports another failure."""
+
+
 class ev(Event):
     pass
 
@@ -114,6 +118,7 @@ class C04(Prop):
         return st.fixed_dictionaries({
             'driver': st.sampled_from(['tick', 'run']),
             'events': st.lists(e, min_size=1, max_size=3),
+            'xfrag': st.sampled_from([False, False, True]),
         }).map(_number)
 
     # ------------------------------------------------------------------
@@ -151,8 +156,17 @@ class C04(Prop):
             def _f(self, event, e, err):
                 log.append(('failure', e.args[0]['id'], err[1].args[0] if err[1].args else None))
 
+            @H('exception', channel='*', priority=5)
+            def _xfragile(self, etype, evalue, tb, handler=None, fevent=None):
+                # a reporter that itself fails while reporting a generated failure (never for its own failure: no chain)
+                if spec.get('xfrag') and isinstance(evalue, BOOMS):
+                    raise XBoom(evalue.args[0] if evalue.args else None)
+
             @H('exception', channel='*')
             def _x(self, etype, evalue, tb, handler=None, fevent=None):
+                if isinstance(evalue, XBoom):
+                    log.append(('xexception', evalue.args[0]))
+                    return
                 eid = fevent.args[0]['id'] if isinstance(fevent, ev) else None
                 log.append(('exception', eid, evalue.args[0] if isinstance(evalue, BOOMS) and evalue.args else repr(evalue)))
 
@@ -328,6 +342,15 @@ class C04(Prop):
             classes.append('notify')
         if len(especs) > len(spec['events']):
             classes.append('nested')
+        if spec.get('xfrag'):
+            # the failing reporter is a failing handler like any other: one exception event per failure of its own,
+            # and the recorder behind it still saw every generated failure (checked above per event)
+            classes.append('exception-handler-that-raises')
+            nx = sorted(map(repr, [l[1] for l in log if l[0] == 'xexception']))
+            nb = sorted(map(repr, [l[2] for l in log if l[0] == 'exception' and l[1] is not None]))
+            if nx != nb:
+                return bad('exception-count', 'the fragile exception handler raised for %d failures, %d exception events report that: %r vs %r' % (
+                    len(nb), len(nx), nb[:3], nx[:3]))
         # nothing else may have been reported as exception (e.g. errors inside the loop machinery)
         stray = [l for l in log if l[0] == 'exception' and l[1] is None]
         if stray:
